@@ -6,7 +6,7 @@
 set -u
 COMMIT="$1"; TIER="$2"; shift; shift
 MUT=${MUT:-/tmp/wt/mutrepo}
-SNAP=${SNAP:-/tmp/wt/verif-$COMMIT}
+SNAP=${SNAP:-/tmp/wt/verif-$COMMIT-$(basename "$MUT")}
 [ -d "$MUT" ] || { git -C /repo worktree add -q --detach "$MUT" HEAD && cp /repo/Cargo.lock "$MUT/"; }
 git -C "$MUT" checkout -q --detach "$(git -C /repo rev-parse HEAD)"; git -C "$MUT" checkout -q -- .
 if [ ! -d "$SNAP" ]; then
